@@ -35,7 +35,8 @@ func c15ReporterJobs(tier string) []*SeqJob {
 					s.close()
 				}
 			}()
-			cl, det = guard(func() (string, string) {
+			var icl, idet string
+			body := func() (string, string) {
 				r, err := m3.NewReporter(m3.Options{HostPorts: addrs, Service: "svc", Env: "test", Protocol: m3Proto(kind), MaxQueueSize: 64, MaxPacketSizeBytes: 32768})
 				if err != nil {
 					return "new-reporter", err.Error()
@@ -104,7 +105,14 @@ func c15ReporterJobs(tier string) []*SeqJob {
 					}
 				}
 				return "", ""
-			})
+			}
+			// (under the controlled scheduler: a panic in the reporter's own goroutine is a violation, not a dead worker)
+			ccl, cdet := controlledCase(0, func() { icl, idet = guard(body) })
+			if ccl != "" {
+				cl, det = ccl, fmt.Sprintf("%v [%s, %d destinations]: %s", histLabels(alphabet, hist), kind, ndest, cdet)
+			} else {
+				cl, det = icl, idet
+			}
 			key = fmt.Sprint(kind, ndest, hist) // the transport may remember: no merging
 			return
 		}
@@ -340,7 +348,7 @@ func c15ReporterJobs(tier string) []*SeqJob {
 			if nd == 2 && kind == "binary" && tier != "thorough" {
 				continue
 			}
-			j := &SeqJob{Property: "C15", Name: fmt.Sprintf("reporter-message-faults-%s-%d-destinations", kind, nd), Shards: 4}
+			j := &SeqJob{Property: "C15", Name: fmt.Sprintf("reporter-message-faults-%s-%d-destinations", kind, nd), Shards: 4, Controlled: true}
 			j.Run = func(ctx *SeqCtx) { bfs(ctx, alphabet, depth, exec(kind, nd)) }
 			j.Replay = func(ops []string) (string, string) { c, d, _, _ := exec(kind, nd)(opIndex(alphabet, ops)); return c, d }
 			jobs = append(jobs, j)
